@@ -40,7 +40,7 @@ def _select(fields, named, kind):
     def default(f):
         isbt = f["ty"] == "bt"
         if named:
-            return f["name"] == "source" if kind == "source" else (f["name"] == "backtrace" or isbt)
+            return f["name"] in ("source", "r#source") if kind == "source" else (f["name"] == "backtrace" or isbt)
         return (n == 1 and not isbt) if kind == "source" else isbt
 
     cands = [i for i in en if ATTRS[fields[i]["attr"]][key] is None and default(fields[i])]
@@ -68,8 +68,9 @@ def layouts(nmax, with_bt=True):
         for n in range(0, nmax + 1):
             if named:
                 name_opts = []
-                for combo in itertools.product(["source", "backtrace", "x"], repeat=n):
-                    if combo.count("source") > 1 or combo.count("backtrace") > 1:
+                # `r#source` is the raw-identifier spelling of the very same field name (explored up to two fields)
+                for combo in itertools.product(["source", "backtrace", "x"] + (["r#source"] if n <= 2 else []), repeat=n):
+                    if combo.count("source") + combo.count("r#source") > 1 or combo.count("backtrace") > 1:
                         continue
                     name_opts.append([c if c != "x" else "x%d" % i for i, c in enumerate(combo)])
             else:
@@ -98,7 +99,7 @@ def observe_source(out, named, fields, container):
     if "fn source" not in out:
         return None
     if container == "struct":
-        m = re.search(r"Some \(self \. (\w+) \. as_dyn_error", out)
+        m = re.search(r"Some \(self \. ((?:r#)?\w+) \. as_dyn_error", out)
         if not m:
             return "unrecognised"
         name = m.group(1)
